@@ -202,6 +202,79 @@ pub fn field_mutations(rng: &mut Rng) -> Vec<Hostile> {
             out.push(assemble(&format!("{}/payload.empty(comp={})", algo, comp.0), &dict, None, &[]));
         }
     }
+    // Deep payload corruption: chunks of several KiB that are really stored compressed, so
+    // that a decoder has consumed a long valid prefix when it meets the damage (flipped bits
+    // at sampled positions, a zeroed stretch, a payload cut short and padded, payloads of two
+    // chunks exchanged, declared source sizes smaller / larger than what the payload holds).
+    for comp in [(3u32, 5u32), (2, 3), (1, 2), (3, 11), (2, 19)] {
+        let n = rng.urange(3000, 9000);
+        let mut src = Vec::new();
+        for _ in 0..4 {
+            src.extend(gen::gen_source(rng, gen::SrcClass::LowEntropy, n));
+        }
+        let spec = ArchiveSpec::plain(Cfg::fixed(n), 16, comp);
+        let Ok(e) = enc::encode_archive(&src, &spec) else { continue };
+        let body = e.bytes[e.chunk_data_offset as usize..].to_vec();
+        let dict = e.dict;
+        let compressed: Vec<usize> = (0..dict.descs.len()).filter(|&i| dict.descs[i].archive_size < dict.descs[i].source_size && dict.descs[i].archive_size > 16).collect();
+        if compressed.len() < 2 {
+            continue;
+        }
+        let cname = ["none", "lzma", "zstd", "brotli"][comp.0 as usize];
+        let span = |i: usize| (dict.descs[i].archive_offset as usize, dict.descs[i].archive_size as usize);
+        for k in 0..6 {
+            let i = *rng.pick(&compressed);
+            let (o, l) = span(i);
+            let mut b = body.clone();
+            // positions spread over the payload: header bytes, early, middle, late, last byte
+            let pos = match k {
+                0 => rng.usize_below(4.min(l)),
+                1 => l - 1,
+                _ => rng.usize_below(l),
+            };
+            b[o + pos] ^= 1 << rng.below(8);
+            out.push(assemble(&format!("deep/{}/payload.bitflip@{}", cname, ["head", "last", "any", "any", "any", "any"][k]), &dict, None, &b));
+        }
+        {
+            let i = *rng.pick(&compressed);
+            let (o, l) = span(i);
+            let mut b = body.clone();
+            let a = l / 3;
+            for x in &mut b[o + a..o + a + (l / 3).max(1)] {
+                *x = 0;
+            }
+            out.push(assemble(&format!("deep/{}/payload.zeroed_stretch", cname), &dict, None, &b));
+            let mut b = body.clone();
+            let cut = rng.urange(1, l - 1);
+            for x in &mut b[o + cut..o + l] {
+                *x = 0xff;
+            }
+            out.push(assemble(&format!("deep/{}/payload.tail_overwritten", cname), &dict, None, &b));
+            // exchange the payloads of two compressed chunks (descriptors keep their hashes)
+            let j = *compressed.iter().find(|&&j| j != i).unwrap();
+            let mut d = dict.clone();
+            let (a1, a2) = (d.descs[i].archive_offset, d.descs[j].archive_offset);
+            let (s1, s2) = (d.descs[i].archive_size, d.descs[j].archive_size);
+            d.descs[i].archive_offset = a2;
+            d.descs[i].archive_size = s2;
+            d.descs[j].archive_offset = a1;
+            d.descs[j].archive_size = s1;
+            out.push(assemble(&format!("deep/{}/payload.exchanged", cname), &d, None, &body));
+            // the payload inflates to n bytes, the descriptor says fewer / more
+            for (nm, f) in [("smaller", 0.5f64), ("one_less", -1.0), ("one_more", -2.0), ("double", 2.0)] {
+                let mut d = dict.clone();
+                let ss = d.descs[i].source_size;
+                d.descs[i].source_size = if f == -1.0 { ss - 1 } else if f == -2.0 { ss + 1 } else { (ss as f64 * f) as u32 };
+                out.push(assemble(&format!("deep/{}/desc.source_size_{}_than_payload", cname, nm), &d, None, &body));
+            }
+            // stored size one short / one long: the decoder sees a truncated / over-long stream
+            for (nm, delta) in [("short_by_1", -1i64), ("short_by_half", -((l / 2) as i64)), ("long_by_7", 7)] {
+                let mut d = dict.clone();
+                d.descs[i].archive_size = (d.descs[i].archive_size as i64 + delta).max(1) as u32;
+                out.push(assemble(&format!("deep/{}/desc.archive_size_{}", cname, nm), &d, None, &body));
+            }
+        }
+    }
     // Decompression bombs: a chunk that inflates far beyond its declared source size
     // (and beyond the RSS bound).
     out.extend(bombs());
@@ -869,7 +942,9 @@ fn memcheck_sample(rep: &Report, seed: u64) {
         .into_iter()
         .filter(|h| h.class.contains("payload.") || h.class.contains("type_switched") || h.class.contains("desc.source_size") || h.class.contains("desc.archive_size"))
         .collect();
-    inputs.truncate(48);
+    // deep-payload cases first: they take the decoders furthest
+    inputs.sort_by_key(|h| !h.class.starts_with("deep/"));
+    inputs.truncate(96);
     let dir = scn::case_dir("C15", 3);
     let res = par_map(inputs.len(), crate::util::ncpu(), |i| {
         let h = &inputs[i];
